@@ -682,6 +682,40 @@ def check_scatter(rec, rng, inp, ndraw):
               "model Dd != dd (1+gamma_ppn)/2 with zero spread (no scatter acts on Dd)", inp, [ddm, dds_], [dd_s, 0])
 
 
+def check_ifu_scatter(rec, rng, inp):
+    """model Ddt of a lens whose lambda comes from the IFU population (mst_ifu) - the only scatter acting on it is lambda_ifu_sigma; the
+    population's lambda_mst_sigma is zero or not given and no line-of-sight population is drawn: mean and spread still follow the population"""
+    cd = gen_cosmo(rng); cosmo = make_cosmo(cd)
+    zl = float(rng.uniform(0.2, 0.9)); zs = float(rng.uniform(zl + 0.4, 3.2))
+    ddt, dd, _, _ = dist(cosmo, zl, zs)
+    ifu = bool(rng.random() < 0.75)
+    lens = dict(z_lens=zl, z_source=zs, likelihood_type="DdtGaussian", ddt_mean=float(ddt), ddt_sigma=float(0.05 * ddt), mst_ifu=ifu)
+    kl = dict(lambda_mst=float(rng.uniform(0.9, 1.1)), lambda_ifu=float(rng.uniform(0.9, 1.1)), lambda_ifu_sigma=float(rng.uniform(0.02, 0.08)),
+              gamma_ppn=float(rng.uniform(0.8, 1.2)))
+    how = str(rng.choice(["zero", "absent", "positive"]))
+    if how == "zero": kl["lambda_mst_sigma"] = 0.0
+    if how == "positive": kl["lambda_mst_sigma"] = float(rng.uniform(0.02, 0.08))
+    ndraw = int(inp.get("ndraw", 1500))
+    inp = dict(inp, cosmo=cd, lens=lens, kwargs_lens=kl, ndraw=ndraw)
+    rec.case(dict(check="ifu_scatter", mst_ifu=ifu, lambda_mst_sigma=how), kind="ifu_scatter:%s:%s" % ("ifu" if ifu else "plain", how))
+    try:
+        ll = LensLikelihood(num_distribution_draws=ndraw, lambda_mst_distribution="GAUSSIAN", **lens)
+        np.random.seed(int(rng.integers(2 ** 31)))
+        dm, ds_, ddm, dds_ = ll.ddt_dd_model_prediction(cosmo, kwargs_lens=kl, kwargs_los=None)
+    except Exception as e:
+        rec.check(False, "C14:scatter:raises", "ddt_dd_model_prediction raised on a valid configuration with scatter", inp, repr(e)); return
+    mu = kl["lambda_ifu"] if ifu else kl["lambda_mst"]
+    sg = kl["lambda_ifu_sigma"] if ifu else kl.get("lambda_mst_sigma", 0.0)
+    rec.check(abs(dm - ddt * mu) <= 6 * ddt * sg / np.sqrt(ndraw) + 1e-10 * ddt, "C14:scatter:ddt_mean",
+              "mean model Ddt != ddt * E[lambda] of the population the lens draws from", inp, dm, ddt * mu)
+    # Gaussian: s.e. of the sample std = sigma / sqrt(2N)
+    rec.check(abs(ds_ - ddt * sg) <= 6 * ddt * sg / np.sqrt(2 * ndraw) + ddt * sg / ndraw + 1e-10 * ddt, "C14:scatter:ddt_spread",
+              "spread of model Ddt != ddt * Std[lambda] of the population the lens draws from", inp, ds_, ddt * sg)
+    dd_s = dd * (1 + kl["gamma_ppn"]) / 2
+    rec.check(abs(ddm - dd_s) <= 1e-10 * dd_s and abs(dds_) <= 1e-10 * dd_s, "C14:scatter:dd",
+              "model Dd != dd (1+gamma_ppn)/2 with zero spread", inp, [ddm, dds_], [dd_s, 0])
+
+
 # ------------------------------------------------------------------------------------------------
 # sub-check: ddt_measurement
 # ------------------------------------------------------------------------------------------------
@@ -782,10 +816,10 @@ def check_scatter_q(rec, rng, inp):
 
 
 CHECKS = dict(sharp_kin=check_sharp_kin, scatter=check_scatter_q, ddt_meas=check_ddt_meas, chi2=check_chi2,
-              chi2_zero=check_chi2_zero)
-SALT = dict(sharp_kin=1, scatter=2, ddt_meas=3, chi2=4, chi2_zero=5)
-PLAN = dict(quick=dict(sharp_kin=120, scatter=12, ddt_meas=42, chi2=60, chi2_zero=50),
-            thorough=dict(sharp_kin=1500, scatter=120, ddt_meas=280, chi2=700, chi2_zero=500))
+              chi2_zero=check_chi2_zero, ifu_scatter=check_ifu_scatter)
+SALT = dict(sharp_kin=1, scatter=2, ddt_meas=3, chi2=4, chi2_zero=5, ifu_scatter=6)
+PLAN = dict(quick=dict(sharp_kin=120, scatter=12, ddt_meas=42, chi2=60, chi2_zero=50, ifu_scatter=24),
+            thorough=dict(sharp_kin=1500, scatter=120, ddt_meas=280, chi2=700, chi2_zero=500, ifu_scatter=300))
 NDRAW = dict(quick=1500, thorough=4000)
 
 
@@ -812,7 +846,7 @@ def main():
     else:
         for name, cnt in PLAN[args.tier].items():
             for i in range(cnt):
-                run_case(rec, name, [args.seed, SALT[name], i], dict(ndraw=NDRAW[args.tier]) if name == "scatter" else None)
+                run_case(rec, name, [args.seed, SALT[name], i], dict(ndraw=NDRAW[args.tier]) if name in ("scatter", "ifu_scatter") else None)
     out = rec.write(args.out)
     print("C14 %s seed=%d: %d cases, %d violations %s, %d errors, %.1fs" % (
         args.tier, args.seed, out["evaluations"], len(out["violations"]), sorted(out["violation_counts"]),
